@@ -49,6 +49,14 @@ const COMMANDS: [&str; 21] = [
     "map_is_empty", "set_from_array", "set_is_empty", "is_windows", "print_env", "uname", "glob_cp", "join_path",
     "glob_chmod", "sha256sum", "sha512sum", "wget", "base64", "concat", "unset",
 ];
+/// minimum number of arguments per the commands' help.md (the harness's own reading, independent of
+/// the `arguments_amount` literals the model table is extracted from)
+const REQUIRED: [(&str, usize); 21] = [
+    ("array_concat", 0), ("array_contains", 2), ("array_is_empty", 1), ("array_join", 2), ("map_contains_key", 2),
+    ("map_contains_value", 2), ("map_is_empty", 1), ("set_from_array", 1), ("set_is_empty", 1), ("is_windows", 0),
+    ("print_env", 0), ("uname", 0), ("glob_cp", 2), ("join_path", 1), ("glob_chmod", 2), ("sha256sum", 1),
+    ("sha512sum", 1), ("wget", 1), ("base64", 1), ("concat", 0), ("unset", 0),
+];
 /// commands with a `while` loop in their script (or calling one that has): a re-serialisation
 /// accident (known findings of C09) can keep a `while` condition true forever.  Since fix 9977171
 /// `eval_instructions` polls the halt flag, so the watchdog would end such a run - but only as an
@@ -589,7 +597,10 @@ impl Command for Probe {
             _ => false,
         };
         let class = match &res {
-            CommandResult::Error(m) if m == INVALID_ARGS => "few",
+            // the wrapper's own refusal; the same text from a NESTED script command (e.g. map_is_empty
+            // inside map_contains_value after `not` re-bound a `%{..}` value to nothing, C09) is an
+            // ordinary error of a body that did run
+            CommandResult::Error(m) if m == INVALID_ARGS && REQUIRED.iter().any(|(a, k)| *a == alias && args.len() < *k) => "few",
             CommandResult::Error(_) => "err",
             CommandResult::Crash(_) => "crash",
             CommandResult::Exit(_) => "exit",
